@@ -66,6 +66,8 @@ type CallRec struct {
 	StaleAtStart     bool
 	Retry            bool
 	AttemptsBefore   int
+	TimeFaulted      bool // a time fault hit this task while the call was executing
+	tfBefore         int
 	FailuresBefore   int
 	Done             bool
 	Events           int
